@@ -834,9 +834,12 @@ def _some(rng, xs, k):
 
 def gen_c20_hang(rng, tier):
     """inputs on which the selected reader model predicts that the header scan does not return"""
-    ops = ['robust_meshb ' + WITNESS['hang'], 'robust_solb 1 ' + WITNESS['hang'], 'robust_translate ' + WITNESS['hang']]
+    ops = ['robust_meshb ' + WITNESS['hang'], 'robust_solb 1 ' + WITNESS['hang']]
+    if tier == 'quick':      # quick tier: the Lean witnesses only, so the replay is the same for every seed
+        return ops
     cl = split_by_class(meshb_mutants(rng, tier))
-    ops += ['robust_meshb ' + d.hex() for d in _some(rng, cl['hang'], 2 if tier == 'quick' else 10)]
+    ops += ['robust_translate ' + WITNESS['hang']]
+    ops += ['robust_meshb ' + d.hex() for d in _some(rng, cl['hang'], 10)]
     return ops
 
 
@@ -844,27 +847,30 @@ def gen_c20_index(rng, tier):
     """inputs the selected reader model accepts although a vertex index is >= the number of vertices"""
     ops = ['robust_translate ' + WITNESS['index_crash'], 'robust_translate ' + WITNESS['index_ub'],
            'robust_meshb ' + WITNESS['index_ub']]
+    if tier == 'quick':
+        return ops
     cl = split_by_class(meshb_mutants(rng, tier))
-    ops += ['robust_translate ' + d.hex() for d in _some(rng, cl['index_big'], 3 if tier == 'quick' else 12)]
-    ops += ['robust_translate ' + d.hex() for d in _some(rng, cl['index_small'], 6 if tier == 'quick' else 30)]
+    ops += ['robust_translate ' + d.hex() for d in _some(rng, cl['index_big'], 12)]
+    ops += ['robust_translate ' + d.hex() for d in _some(rng, cl['index_small'], 30)]
     return ops
 
 
 def gen_c20_count(rng, tier):
     """.solb inputs whose declared vertex count alone sizes an allocation or drives a loop"""
     ops = ['robust_solb 1 ' + WITNESS['solb_alloc'], 'robust_solb 1 ' + WITNESS['solb_loop']]
+    if tier == 'quick':
+        return ops
     cs = split_solb(solb_mutants(rng, tier))
-    for cls, k in (('alloc', 2), ('hang', 1), ('slow', 1), ('ub', 3)):
-        ops += ['robust_%s %d %s' % (kd, nn, d.hex() or '-') for kd, nn, d in
-                _some(rng, [t for t in cs[cls] if len(t[2]) != 20], k if tier == 'quick' else 4 * k)]
+    for cls, k in (('alloc', 8), ('hang', 4), ('slow', 4), ('ub', 12)):
+        ops += ['robust_%s %d %s' % (kd, nn, d.hex() or '-') for kd, nn, d in _some(rng, cs[cls], k)]
     return ops
 
 
 C20_HANG = Stream('c20_hang', 'h_codec', 'codec', gen_c20_hang, oracle=oracle_returns, whitebox=['ref_import'],
-                  nontrivial=lambda op, out: True, harness_args=['2'], site='meshb-header-no-progress')
+                  nontrivial=lambda op, out: True, harness_args=['1'], site='meshb-header-no-progress')
 C20_INDEX = Stream('c20_index', 'h_codec', 'codec', gen_c20_index, oracle=oracle_returns, whitebox=['ref_import'],
                    nontrivial=lambda op, out: True, harness_args=['4'], site='meshb-vertex-index-unchecked')
 C20_COUNT = Stream('c20_count', 'h_codec', 'codec', gen_c20_count, oracle=oracle_returns, whitebox=['ref_import'],
-                   nontrivial=lambda op, out: True, harness_args=['2'], site='solb-declared-count-trusted')
+                   nontrivial=lambda op, out: True, harness_args=['1'], site='solb-declared-count-trusted')
 C20_ROBUST = Stream('c20_robust', 'h_codec', 'codec', gen_c20_robust, oracle=oracle_returns, whitebox=['ref_import'],
                     nontrivial=lambda op, out: True, harness_args=['4'])
